@@ -42,6 +42,20 @@ EXPLANATION = (
 )
 
 
+def resolve_local(func, e, depth=0):
+    """follow single-definition locals (and walrus) to the defining expression"""
+    from ..util import single_def
+
+    if isinstance(e, ast.NamedExpr):
+        return e.value
+    while isinstance(e, ast.Name) and depth < 5:
+        d = single_def(func, e.id)
+        if d is None:
+            break
+        e, depth = d, depth + 1
+    return e
+
+
 def _calls(node, pred):
     return [c for c in [node, *walk_shallow(node)] if isinstance(c, ast.Call) and pred(c)]
 
@@ -378,8 +392,33 @@ def _r3(repo, L, m, ba):
     okw = len(wl) == 1 and len(mk) == 1 and len(fx) == 1 and contains(wl[0], mk[0]) and contains(wl[0], fx[0]) and mk[0].lineno < fx[0].lineno
     L.check(okw, "R3", dof.short + ":fresh-premises", "a fresh resolver (fresh premises) in every round", "the overhang resolver is not rebuilt inside each round: premises computed against an earlier state are applied again after rows have been removed, discarding a contig from its only remaining owner (recorded as found, never re-added)", dof.loc())
     # loop continues until no fix; every fix processed
-    fl = [n for n in walk_shallow(dof.node) if isinstance(n, ast.For) and "fix" in norm(n.iter)]
-    L.check(len(fl) == 1 and not any(isinstance(x, ast.Break | ast.Continue) for x in walk_shallow(fl[0])), "R3", dof.short + ":all-fixes", "bookkeeping for every applied premise", "not every applied premise is processed", dof.loc())
+    fixv = None
+    if fx:
+        par = fx[0]._parent
+        if isinstance(par, ast.Assign) and isinstance(par.targets[0], ast.Name):
+            fixv = par.targets[0].id
+        elif isinstance(par, ast.NamedExpr):
+            fixv = par.target.id
+    fl = [n for n in walk_shallow(dof.node) if isinstance(n, ast.For) and ((fixv and is_name(n.iter, fixv)) or (fx and n.iter is fx[0]))]
+    if len(fl) != 1:
+        raise AnalysisError(f"{dof.short}: loop over the applied premises (result of make_fixes) not found")
+    okf_, whyf_ = True, ""
+    for pth in PathEnum((0,), exc_edges=False).block(fl[0].body):
+        if pth.status == "break" or pth.status == "return":
+            okf_, whyf_ = False, f"the bookkeeping loop stops early ({pth.status}): later applied premises are not processed"
+        removed = [c for _, c in path_calls(pth, lambda c: isinstance(c.func, ast.Attribute) and c.func.attr == "remove_scaffold")]
+        if not removed and pth.status != "raise":
+            # skipping is fine only when the contig is no longer in the shared map (lookup came back empty)
+            miss = False
+            for e in pth.events:
+                if e.kind == "cond":
+                    for t, v in cond_facts(e.node, e.val):
+                        tt = resolve_local(dof, t)
+                        if not v and isinstance(tt, ast.Call) and isinstance(tt.func, ast.Attribute) and tt.func.attr == "get":
+                            miss = True
+            if not miss:
+                okf_, whyf_ = False, f"an applied premise is skipped without removing its result from the owner list ({pth.describe()[:100]})"
+    L.check(okf_, "R3", dof.short + ":all-fixes", "bookkeeping for every applied premise", whyf_ or "not every applied premise is processed", dof.loc())
     ff = repo.cls("FoundFragment")
     rs = ff.methods.get("remove_scaffold")
     sc = ff.methods.get("scaffold_count")
@@ -407,37 +446,56 @@ def _r3(repo, L, m, ba):
 def _r4(repo, L, m, ba):
     cut, qc = m["cut_fragments"], m["qc_sub_fragments"]
     # (a) every trim result flows into the QC call which precedes the counter and the normal exit
-    trims = [c for c in repo.calls_in(cut) if isinstance(c.func, ast.Attribute) and c.func.attr == "trim_fragment"]
     qcalls = [c for c in repo.calls_in(cut) if isinstance(c.func, ast.Attribute) and c.func.attr == qc.name]
-    ok, why = len(trims) == 1 and len(qcalls) == 1, f"{len(trims)} cut sites / {len(qcalls)} QC calls"
-    if ok:
-        t = trims[0]
-        par = t._parent
-        listv = None
-        if isinstance(par, ast.Call) and isinstance(par.func, ast.Attribute) and par.func.attr == "append":
-            listv = norm(par.func.value)
-        elif isinstance(par, ast.ListComp):
-            asg = par._parent
-            listv = norm(asg.targets[0]) if isinstance(asg, ast.Assign) else None
+    is_trim = lambda c: isinstance(c, ast.Call) and isinstance(c.func, ast.Attribute) and c.func.attr == "trim_fragment"  # noqa: E731
+    loops_t = [n for n in cut.node.body if isinstance(n, ast.For) and any(is_trim(c) for c in walk_shallow(n))]
+    if len(qcalls) != 1 or len(loops_t) != 1:
+        ok, why = False, f"{len(loops_t)} cutting loop(s) / {len(qcalls)} QC call(s) in cut_fragments"
+    else:
+        loop = loops_t[0]
         passed = [norm(a) for a in qcalls[0].args]
-        ok = listv is not None and listv in passed
-        why = f"pieces are collected in {listv}, QC receives {passed}"
-        if ok:
-            qstmt = qcalls[0]
-            while not isinstance(qstmt, ast.stmt):
-                qstmt = qstmt._parent
-            top = qstmt in cut.node.body
-            loop = next((a for a in ancestors(t) if isinstance(a, ast.For)), None)
-            ok = top and loop is not None and loop in cut.node.body and cut.node.body.index(loop) < cut.node.body.index(qstmt)
-            why = "QC is not an unconditional top-level step after the cutting loop"
-            if ok:
-                # nothing between can skip it
-                between = cut.node.body[cut.node.body.index(loop) + 1: cut.node.body.index(qstmt)]
-                ok = not any(isinstance(x, ast.Return | ast.If) for s in between for x in [s, *walk_shallow(s)])
-                why = "a return/branch between cutting and the QC can skip it"
-            if ok and loop is not None:
-                ok = not any(isinstance(x, ast.Break | ast.Continue) for x in walk_shallow(loop))
-                why = "the cutting loop can skip a result (break/continue)"
+        qstmt = qcalls[0]
+        while not isinstance(qstmt, ast.stmt):
+            qstmt = qstmt._parent
+        ok, why = True, ""
+        if qstmt not in cut.node.body or cut.node.body.index(loop) > cut.node.body.index(qstmt):
+            ok, why = False, "QC is not an unconditional top-level step after the cutting loop"
+        else:
+            between = cut.node.body[cut.node.body.index(loop) + 1: cut.node.body.index(qstmt)]
+            if any(isinstance(x, ast.Return | ast.If) for s_ in between for x in [s_, *walk_shallow(s_)]):
+                ok, why = False, "a return/branch between cutting and the QC can skip it"
+        # per path of the loop body: exactly one piece is cut and that piece is appended to the list the QC receives
+        n_lp = 0
+        for pth in PathEnum((0,), exc_edges=False).block(loop.body):
+            if pth.status == "raise":
+                continue
+            n_lp += 1
+            if pth.status in ("break", "continue", "return"):
+                ok, why = False, f"the cutting loop can skip a result ({pth.status})"
+                continue
+            cut_vals = set()
+            n_cut = 0
+            appended = 0
+            for e in pth.events:
+                if e.kind not in ("stmt", "cond"):
+                    continue
+                nodes = [e.node, *walk_shallow(e.node)]
+                for x in nodes:
+                    if is_trim(x):
+                        n_cut += 1
+                        par = x._parent
+                        if isinstance(par, ast.Assign) and len(par.targets) == 1 and isinstance(par.targets[0], ast.Name):
+                            cut_vals.add(par.targets[0].id)
+                        elif isinstance(par, ast.NamedExpr):
+                            cut_vals.add(par.target.id)
+                    if isinstance(x, ast.Call) and isinstance(x.func, ast.Attribute) and x.func.attr == "append" and norm(x.func.value) in passed and x.args:
+                        a0 = x.args[0]
+                        if is_trim(a0) or (isinstance(a0, ast.Name) and a0.id in cut_vals):
+                            appended += 1
+            if n_cut != 1 or appended != 1:
+                ok, why = False, f"on a path of the cutting loop {n_cut} piece(s) are cut but {appended} handed to the QC list {passed} ({pth.describe()[:120]}): a piece can vanish without the QC seeing it"
+        if n_lp == 0:
+            ok, why = False, "cutting loop has no completing path"
     L.check(ok, "R4", cut.short, "all pieces → QC, unconditionally, before the cut is accepted", why, cut.loc())
     # loop covers all owners
     loops = [n for n in cut.node.body if isinstance(n, ast.For)]
@@ -449,92 +507,240 @@ def _r4(repo, L, m, ba):
         okl = any("scaffolds" in norm(d) and not isinstance(d, ast.Subscript) and "if" not in norm(d).split("key")[0] for d in defs)
     L.check(okl, "R4", cut.short + ":owners", "every owning result is cut", "not every result that owns the contig is cut", cut.loc())
 
-    # (b) QC: accumulate message; raise iff non-empty; essential conditions
-    pieces = qc.params()[2]
-    fnd = qc.params()[1]
-    raises = [n for n in qc.node.body if isinstance(n, ast.If) and any(isinstance(x, ast.Raise) for x in n.body)]
-    msgv = None
-    if raises and isinstance(raises[-1].test, ast.Name):
-        msgv = raises[-1].test.id
-    okq = msgv is not None and raises[-1] is qc.node.body[-1] or (msgv is not None and all(not isinstance(s, ast.Return) for s in qc.node.body))
-    L.check(bool(okq), "R4", qc.short + ":raise", "raises whenever an error message accumulated", "QC does not end in `if <message>: raise`: detected problems are not turned into an error", qc.loc())
-    if msgv is None:
-        return
-    # every normally-returning path passes through the final test (no early exit that skips checks)
-    early = None
-    for p in paths(qc, (0, 1), exc_edges=False):
-        if p.status == "return" and not any(e.kind == "cond" and e.node is raises[-1].test for e in p.events):
-            early = p
-            break
-    L.check(early is None, "R4", qc.short + ":no-early-exit", "every accepting path evaluates the final `if <message>: raise`", f"QC can return before its final test ({early.describe() if early else ''}): the remaining checks are skipped on that path, so e.g. an overlap on one side compensated by a hole on the other is accepted", qc.loc(), witness={"pieces": "ctg:1-40000 and ctg:35001-65000 of a 70000 bp contig (overlap 5000, hole 5000: lengths still sum up)"})
-    init = [n for n in qc.node.body if isinstance(n, ast.Assign) and is_name(n.targets[0], msgv)]
-    L.check(len(init) == 1 and try_fold(init[0].value, default=None) == "", "R4", qc.short + ":init", "message starts empty", "QC message does not start empty / is reset", qc.loc())
-    resets = [n for n in walk_shallow(qc.node) if isinstance(n, ast.Assign) and is_name(n.targets[0], msgv) and n not in init]
-    L.check(not resets, "R4", qc.short + ":no-reset", "message only grows", f"QC message is overwritten by '{norm(resets[0])[:50]}': earlier findings are forgotten" if resets else "", qc.loc())
-    conds = []
-    for n in walk_shallow(qc.node):
-        if isinstance(n, ast.AugAssign) and is_name(n.target, msgv) and isinstance(n.op, ast.Add):
-            nonempty = isinstance(n.value, ast.JoinedStr) or (isinstance(n.value, ast.Constant) and n.value.value) or isinstance(n.value, ast.BinOp)
-            g = [a for a in ancestors(n) if isinstance(a, ast.If)]
-            loops_ = [a for a in ancestors(n) if isinstance(a, ast.For)]
-            if nonempty and g and g[0] in qc.node.body:
-                conds.append(g[0].test)
-            elif nonempty and loops_:
-                conds.append(loops_[0].iter)
-    # length conservation
-    sums = {}
-    for n in qc.node.body:
-        if isinstance(n, ast.Assign) and isinstance(n.value, ast.Call) and dotted(n.value.func) == "sum" and isinstance(n.targets[0], ast.Name):
-            g = n.value.args[0]
-            if isinstance(g, ast.GeneratorExp | ast.ListComp) and len(g.generators) == 1 and not g.generators[0].ifs and is_name(g.generators[0].iter, pieces) and norm(g.elt) == f"{g.generators[0].target.id}.length":
-                sums[n.targets[0].id] = n
-    has_len = False
-    for t in conds:
-        neg = False
-        tt = t
-        while isinstance(tt, ast.UnaryOp) and isinstance(tt.op, ast.Not):
-            tt, neg = tt.operand, not neg
-        if isinstance(tt, ast.Compare) and len(tt.ops) == 1 and ((isinstance(tt.ops[0], ast.NotEq) and not neg) or (isinstance(tt.ops[0], ast.Eq) and neg)):
-            sides = [norm(tt.left), norm(tt.comparators[0])]
-            if any(s == f"{fnd}.fragment.length" for s in sides) and any(s in sums or s.replace(" ", "") == f"sum(f.lengthforfin{pieces})" for s in sides):
-                has_len = True
-    L.check(has_len, "R4", qc.short + ":length", "error when Σ piece lengths != contig length", "QC no longer fails when the pieces' lengths do not sum to the contig's length: sequence lost or duplicated by a cut goes unnoticed", qc.loc(), witness={"conditions kept": [norm(c)[:50] for c in conds]})
-    # overlap evidence
-    cnts = {}
-    srt = {}
-    for n in qc.node.body:
-        if isinstance(n, ast.Assign) and isinstance(n.value, ast.Call) and dotted(n.value.func) == "sorted" and n.value.args and is_name(n.value.args[0], pieces):
+    # (b) the QC's verdict
+    _qc_verdict(repo, L, qc)
+
+
+def _nonempty_expr(e) -> bool:
+    """Expression certainly evaluating to a non-empty str / list / tuple."""
+    if isinstance(e, ast.Constant):
+        return isinstance(e.value, str) and e.value != ""
+    if isinstance(e, ast.JoinedStr):
+        return any(isinstance(v, ast.Constant) and v.value for v in e.values)
+    if isinstance(e, ast.BinOp) and isinstance(e.op, ast.Add):
+        return _nonempty_expr(e.left) or _nonempty_expr(e.right)
+    if isinstance(e, ast.List | ast.Tuple):
+        return bool(e.elts) and not any(isinstance(x, ast.Starred) for x in e.elts)
+    return False
+
+
+def _empty_expr(e) -> bool:
+    if isinstance(e, ast.Constant):
+        return e.value == ""
+    if isinstance(e, ast.List | ast.Tuple):
+        return not e.elts
+    if isinstance(e, ast.Call) and dotted(e.func) in ("list", "str", "tuple") and not e.args:
+        return True
+    return False
+
+
+def _qc_verdict(repo, L, qc: Func):
+    """Every accepting (non-raising) path of the cut QC must have established, by the conditions it took,
+         (1) Σ piece lengths == length of the contig that was cut          (no base lost or duplicated in total)
+         (2) number of overlapping consecutive pieces (sorted by start) == 0 (no base written twice)
+       Decided path-wise; the error accumulator (a str or list that starts empty, grows by non-empty values and is tested
+       for truth before the raise) is tracked in an emptiness domain {empty, non-empty, unknown} so that the form of the
+       bookkeeping (message string, list of problems, early raise) does not matter."""
+    from ..util import single_def
+
+    fnd, pieces = qc.params()[1], qc.params()[2]
+    fn = qc.node
+
+    def resolve(e, depth=0):
+        while isinstance(e, ast.Name) and depth < 5:
+            d = single_def(qc, e.id)
+            if d is None:
+                break
+            e, depth = d, depth + 1
+        return e
+
+    sorted_names = {}
+    for n in walk_shallow(fn):
+        if isinstance(n, ast.Assign) and len(n.targets) == 1 and isinstance(n.targets[0], ast.Name) and isinstance(n.value, ast.Call) and dotted(n.value.func) == "sorted" and n.value.args and is_name(n.value.args[0], pieces):
             k = next((kk.value for kk in n.value.keywords if kk.arg == "key"), None)
-            by_start = isinstance(k, ast.Lambda) and norm(k.body).replace(" ", "").startswith((f"({k.args.args[0].arg}.start", f"{k.args.args[0].arg}.start"))
-            srt[n.targets[0].id] = by_start
-    for lp in [n for n in qc.node.body if isinstance(n, ast.For)]:
-        it = norm(lp.iter)
-        sv = next((s for s in srt if s in it), None)
-        if sv is None or not srt[sv]:
+            by_start = False
+            if isinstance(k, ast.Lambda) and k.args.args:
+                a0 = k.args.args[0].arg
+                body = k.body.elts[0] if isinstance(k.body, ast.Tuple) and k.body.elts else k.body
+                by_start = norm(body) == f"{a0}.start"
+            elif isinstance(k, ast.Call) and dotted(k.func) in ("attrgetter", "operator.attrgetter") and k.args and try_fold(k.args[0], default=None) == "start":
+                by_start = True
+            rev = next((kk.value for kk in n.value.keywords if kk.arg == "reverse"), None)
+            sorted_names[n.targets[0].id] = by_start and (rev is None or try_fold(rev, default=1) is False)
+
+    def is_sigma(e):
+        e = resolve(e)
+        if isinstance(e, ast.Call) and dotted(e.func) == "sum" and len(e.args) == 1 and isinstance(e.args[0], ast.GeneratorExp | ast.ListComp):
+            g = e.args[0]
+            if len(g.generators) == 1 and not g.generators[0].ifs and isinstance(g.generators[0].target, ast.Name):
+                it = g.generators[0].iter
+                return isinstance(it, ast.Name) and (it.id == pieces or it.id in sorted_names) and norm(g.elt) == f"{g.generators[0].target.id}.length"
+        return False
+
+    def is_contig_len(e):
+        e = resolve(e)
+        if isinstance(e, ast.Attribute) and e.attr == "length":
+            b = resolve(e.value)
+            return norm(b) == f"{fnd}.fragment"
+        return False
+
+    # ---- overlap evidence: counters / flags fed by a.overlaps(b) over consecutive start-sorted pieces
+    def pair_loop(lp):
+        """-> (a, b) names when `lp` visits every consecutive pair of a start-sorted copy of the pieces; None otherwise"""
+        it, tg = lp.iter, lp.target
+        txt = norm(it).replace(" ", "")
+        for S, ok_sorted in sorted_names.items():
+            if isinstance(tg, ast.Tuple) and len(tg.elts) == 2 and all(isinstance(x, ast.Name) for x in tg.elts):
+                x, y = tg.elts[0].id, tg.elts[1].id
+                if txt in (f"zip({S},{S}[1:])", f"itertools.pairwise({S})", f"pairwise({S})"):
+                    return (x, y) if ok_sorted else False
+                if txt == f"enumerate({S}[:-1])":
+                    nxt = [n for n in lp.body if isinstance(n, ast.Assign) and isinstance(n.targets[0], ast.Name) and norm(n.value).replace(" ", "") in (f"{S}[{x}+1]", f"{S}[1+{x}]")]
+                    if nxt:
+                        return (y, nxt[0].targets[0].id) if ok_sorted else False
+            if isinstance(tg, ast.Name) and txt in (f"range(len({S})-1)", f"range(0,len({S})-1)"):
+                i = tg.id
+                cur = [n for n in lp.body if isinstance(n, ast.Assign) and isinstance(n.targets[0], ast.Name) and norm(n.value).replace(" ", "") == f"{S}[{i}]"]
+                nxt = [n for n in lp.body if isinstance(n, ast.Assign) and isinstance(n.targets[0], ast.Name) and norm(n.value).replace(" ", "") in (f"{S}[{i}+1]", f"{S}[1+{i}]")]
+                if cur and nxt:
+                    return (cur[0].targets[0].id, nxt[0].targets[0].id) if ok_sorted else False
+        return None
+
+    counters = set()
+    seen_true = False
+    has_overlap_call = any(isinstance(c, ast.Call) and isinstance(c.func, ast.Attribute) and c.func.attr == "overlaps" for c in walk_shallow(fn))
+    unrecognised_overlap = False
+    for lp in [n for n in walk_shallow(fn) if isinstance(n, ast.For)]:
+        calls = [c for c in walk_shallow(lp) if isinstance(c, ast.Call) and isinstance(c.func, ast.Attribute) and c.func.attr == "overlaps"]
+        if not calls:
             continue
-        # element i vs i+1
-        ixv = lp.target.elts[0].id if isinstance(lp.target, ast.Tuple) and len(lp.target.elts) == 2 and isinstance(lp.target.elts[0], ast.Name) else "i"
-        nxt = [n for n in walk_shallow(lp) if isinstance(n, ast.Assign) and norm(n.value).replace(" ", "") in (f"{sv}[{ixv}+1]", f"{sv}[1+{ixv}]")]
-        cur = lp.target.elts[1].id if isinstance(lp.target, ast.Tuple) and len(lp.target.elts) == 2 else None
-        if not nxt or cur is None:
+        pr = pair_loop(lp)
+        if pr is None:
+            unrecognised_overlap = True
             continue
-        nb = nxt[0].targets[0].id
-        for iff in [n for n in walk_shallow(lp) if isinstance(n, ast.If)]:
-            c = iff.test
-            if isinstance(c, ast.Call) and isinstance(c.func, ast.Attribute) and c.func.attr == "overlaps" and {norm(c.func.value), norm(c.args[0])} == {cur, nb}:
-                for s in iff.body:
-                    if isinstance(s, ast.AugAssign) and isinstance(s.op, ast.Add) and try_fold(s.value, default=None) == 1:
-                        cnts[norm(s.target)] = True
-    has_ovl = False
-    for t in conds:
-        if isinstance(t, ast.Compare) and len(t.ops) == 1 and norm(t.left) in cnts:
-            c = try_fold(t.comparators[0], default=None)
-            if (isinstance(t.ops[0], ast.NotEq) and c == 0) or (isinstance(t.ops[0], ast.Gt) and c == 0) or (isinstance(t.ops[0], ast.GtE) and c == 1):
-                has_ovl = True
-        if isinstance(t, ast.Name) and t.id in cnts:
-            has_ovl = True
-    L.check(has_ovl, "R4", qc.short + ":overlap", "error when two (start-sorted, consecutive) pieces overlap", "QC no longer fails when two pieces of a cut contig overlap: bases written twice go unnoticed", qc.loc(), witness={"conditions kept": [norm(c)[:50] for c in conds]})
-    L.extra["qc_conditions"] = [norm(c)[:80] for c in conds]
+        if pr is False:
+            continue  # pairs of an unsorted / wrongly sorted list: no evidence
+        a, b = pr
+        for pth in PathEnum((0,), exc_edges=False).block(lp.body):
+            ov = None
+            for e in pth.events:
+                if e.kind == "cond":
+                    for t, v in cond_facts(e.node, e.val):
+                        if isinstance(t, ast.Call) and isinstance(t.func, ast.Attribute) and t.func.attr == "overlaps" and t.args and {norm(t.func.value), norm(t.args[0])} == {a, b}:
+                            ov = v
+            incs = {norm(e.node.target) for e in pth.events if e.kind == "stmt" and isinstance(e.node, ast.AugAssign) and isinstance(e.node.op, ast.Add) and isinstance(try_fold(e.node.value, default=None), int) and try_fold(e.node.value, default=0) > 0}
+            if ov is True:
+                counters = incs if not seen_true else counters & incs
+                seen_true = True
+    # a counter must start at 0 and only ever grow
+    for c in sorted(counters):
+        for n in walk_shallow(fn):
+            if isinstance(n, ast.Assign) and any(is_name(t, c) for t in n.targets) and try_fold(n.value, default=None) != 0:
+                counters.discard(c)
+            if isinstance(n, ast.AugAssign) and is_name(n.target, c) and not (isinstance(n.op, ast.Add) and isinstance(try_fold(n.value, default=None), int) and try_fold(n.value, default=0) > 0):
+                counters.discard(c)
+    if has_overlap_call and not counters and unrecognised_overlap:
+        raise AnalysisError(f"{qc.short}: overlap evidence is collected in a form that is not understood (pairs / counter)")
+
+    # ---- accumulators
+    accs = set()
+    for n in fn.body:
+        if isinstance(n, ast.Assign) and len(n.targets) == 1 and isinstance(n.targets[0], ast.Name) and _empty_expr(n.value):
+            accs.add(n.targets[0].id)
+
+    def c_fact(t, v):
+        """fact about an overlap counter -> upper bound implied for it, or None"""
+        INF = 10 ** 9
+        if isinstance(t, ast.Name) and t.id in counters:
+            return 0 if not v else INF
+        if isinstance(t, ast.Compare) and len(t.ops) == 1:
+            l, op, r = t.left, t.ops[0], t.comparators[0]
+            if isinstance(l, ast.Name) and l.id in counters and isinstance(try_fold(r, default=None), int):
+                k = try_fold(r)
+                table = {
+                    (ast.NotEq, False): k, (ast.Eq, True): k,
+                    (ast.Gt, False): k, (ast.GtE, False): k - 1,
+                    (ast.Lt, True): k - 1, (ast.LtE, True): k,
+                }
+                return table.get((type(op), v), INF)
+        return None
+
+    n_accept = n_raise = 0
+    bad_len = bad_ovl = None
+    for pth in paths(qc, (0, 1), exc_edges=False):
+        state = {}
+        feasible = True
+        len_ok = False
+        hi = 10 ** 9
+        for e in pth.events:
+            if e.kind == "stmt":
+                n = e.node
+                if isinstance(n, ast.Assign) and len(n.targets) == 1 and isinstance(n.targets[0], ast.Name) and n.targets[0].id in accs:
+                    state[n.targets[0].id] = "E" if _empty_expr(n.value) else "N" if _nonempty_expr(n.value) else "?"
+                elif isinstance(n, ast.AugAssign) and isinstance(n.target, ast.Name) and n.target.id in accs:
+                    if _nonempty_expr(n.value):
+                        state[n.target.id] = "N"
+                    elif state.get(n.target.id) != "N":
+                        state[n.target.id] = "?"
+                elif isinstance(n, ast.Expr) and isinstance(n.value, ast.Call) and isinstance(n.value.func, ast.Attribute) and isinstance(n.value.func.value, ast.Name) and n.value.func.value.id in accs:
+                    a, m_ = n.value.func.value.id, n.value.func.attr
+                    if m_ == "append":
+                        state[a] = "N"
+                    elif m_ == "clear":
+                        state[a] = "E"
+                    elif m_ in ("extend", "insert", "pop", "remove"):
+                        state[a] = "N" if m_ == "insert" else "?"
+            elif e.kind == "cond":
+                for t, v in cond_facts(e.node, e.val):
+                    if isinstance(t, ast.Name) and t.id in accs:
+                        sv = state.get(t.id, "?")
+                        if (sv == "E" and v) or (sv == "N" and not v):
+                            feasible = False
+                        continue
+                    if isinstance(t, ast.Compare) and len(t.ops) == 1 and isinstance(t.ops[0], ast.Eq | ast.NotEq):
+                        l, r = t.left, t.comparators[0]
+                        if (is_sigma(l) and is_contig_len(r)) or (is_sigma(r) and is_contig_len(l)):
+                            if (isinstance(t.ops[0], ast.Eq) and v) or (isinstance(t.ops[0], ast.NotEq) and not v):
+                                len_ok = True
+                            continue
+                    cf = c_fact(t, v)
+                    if cf is not None:
+                        hi = min(hi, cf)
+            if not feasible:
+                break
+        if not feasible:
+            continue
+        if pth.status == "raise":
+            n_raise += 1
+            continue
+        n_accept += 1
+        if not len_ok and bad_len is None:
+            bad_len = pth
+        if hi != 0 and bad_ovl is None:
+            bad_ovl = pth
+    if n_accept == 0:
+        raise AnalysisError(f"{qc.short}: no accepting path found")
+    # distinguish "not understood" from "absent" for the length evidence
+    if bad_len is not None:
+        sums = [c for c in walk_shallow(fn) if isinstance(c, ast.Call) and dotted(c.func) == "sum"]
+        cmp_len = [c for c in walk_shallow(fn) if isinstance(c, ast.Compare) and any(is_sigma(x) for x in [c.left, *c.comparators]) and any(is_contig_len(x) for x in [c.left, *c.comparators])]
+        accum = [n for n in walk_shallow(fn) if isinstance(n, ast.AugAssign) and norm(n.value).endswith(".length")]
+        if not cmp_len and (accum or any(not is_sigma(c) and ".length" in norm(c) for c in sums)):
+            raise AnalysisError(f"{qc.short}: the total length of the pieces is computed in a form that is not understood")
+    L.check(
+        bad_len is None, "R4", qc.short + ":length", f"every accepting path ({n_accept}) has established Σ piece lengths == contig length",
+        "the QC accepts a cut without having established that the pieces' lengths sum to the contig's length"
+        + (f" (accepting path: {bad_len.describe()[:200]})" if bad_len is not None else "") + ": sequence lost or duplicated by a cut goes unnoticed",
+        qc.loc(), witness={"pieces": "ctg:1-40000 and ctg:45001-70000 of a 70000 bp contig"},
+    )
+    L.check(
+        bad_ovl is None, "R4", qc.short + ":overlap", f"every accepting path ({n_accept}) has established that no two consecutive start-sorted pieces overlap",
+        "the QC accepts a cut without having established that no two pieces of the contig overlap"
+        + (f" (accepting path: {bad_ovl.describe()[:200]})" if bad_ovl is not None else "") + ": bases written twice go unnoticed (an overlap on one side compensated by a hole elsewhere keeps the length sum)",
+        qc.loc(), witness={"pieces": "ctg:1-40000 and ctg:35001-65000 of a 70000 bp contig (overlap 5000, hole 5000: lengths still sum up)"},
+    )
+    L.check(n_raise > 0, "R4", qc.short + ":raise", f"{n_raise} rejecting path(s) end in a raise", "the QC never raises", qc.loc())
+    L.extra["qc_paths"] = {"accepting": n_accept, "raising": n_raise, "overlap_counters": sorted(counters)}
 
 
 # ------------------------------------------------------------------------------ R5
